@@ -62,6 +62,22 @@ Theorem C28_flood_fill_components :
 Proof. exact flood_fill_components_sec. Qed.
 Print Assumptions C28_flood_fill_components.
 
+(* the DFS stack never holds more than 1 + (number of directed off-diagonal edges of tree_tree)
+   entries: with any scratch array at least that long no write leaves it.  ntree*ntree is such a
+   length (nnz_off <= ntree*(ntree-1)); ntree is not (ex_K5_depth: K5 reaches depth 7). *)
+Theorem C28_flood_fill_stack_depth_le_edges :
+  forall (n : Z) (adj : list (list Z)) (stk0 : list Z),
+    0 < n -> sym_adj n adj ->
+    1 + nnz_off n adj <= Z.of_nat (length stk0) -> ff_bad n adj stk0 = false.
+Proof. exact flood_fill_stack_depth_le_edges. Qed.
+Print Assumptions C28_flood_fill_stack_depth_le_edges.
+
+Theorem C28_K5_overruns_a_stack_of_ntree :
+  nnz_off 5 ex_K5 = 20 /\ ff_bad 5 ex_K5 (zfill 5 0) = true /\
+  ff_bad 5 ex_K5 (zfill 6 0) = true /\ ff_bad 5 ex_K5 (zfill 7 0) = false.
+Proof. exact ex_K5_depth. Qed.
+Print Assumptions C28_K5_overruns_a_stack_of_ntree.
+
 (* island() = _tree_edges then _flood_fill: all trees marked by one constraint row end in the
    same island, whatever the order of the edge tasks *)
 Theorem C28_row_trees_same_island :
